@@ -35,8 +35,8 @@ REQUIRED_CLASSES = ['opened-by-relative-name-then-directory-changed', 'offset-in
                     'full-file', 'record-with-thousands-of-fits', 'same-source-twice', 'blank-padded-names', 'same-source-object-changed-in-place']
 TIMEOUT = {'quick': 300, 'thorough': 900}
 
-KINDS_QUICK = ['f0', 'f1m', 'f3m', 'f3', 'f1L', 'f3mx', 'f1D', 'f1mP', 'f1S', 'f3mW']          # D: same source content as the record before it; P: blank-padded names; S: the very same Source object, changed in place
-KINDS_ALL = ['f0', 'f0m', 'f1', 'f1m', 'f3', 'f3m', 'f1L', 'f3mL', 'f3mx', 'f3x', 'f0L', 'f1mL', 'f1D', 'f3mD', 'f1mP', 'f3P', 'f1S', 'f3mS', 'f3mW', 'f1W']
+KINDS_QUICK = ['f0', 'f1m', 'f3m', 'f3', 'f1L', 'f3mx', 'f1D', 'f1mP', 'f1S', 'f3mW', 'f3mE']          # D: same source content as the record before it; P: blank-padded names; S: the very same Source object, changed in place
+KINDS_ALL = ['f0', 'f0m', 'f1', 'f1m', 'f3', 'f3m', 'f1L', 'f3mL', 'f3mx', 'f3x', 'f0L', 'f1mL', 'f1D', 'f3mD', 'f1mP', 'f3P', 'f1S', 'f3mS', 'f3mW', 'f1W', 'f3mE', 'f3Ex']
 
 
 def setup(tier, seed):
@@ -124,6 +124,9 @@ def _record(kind, idx, meta):
         i.chi2[-1] = np.nan
         i.av = i.av.copy()
         i.av[0] = np.inf
+    if 'E' in kind and n >= 2:        # the last two fits exactly tied at 1e30, or (with x) both infinite
+        i.chi2 = i.chi2.copy()
+        i.chi2[-2:] = np.inf if 'x' in kind else 1e30
     i.model_id = np.array([2, 0, 1][:n])
     if 'W' in kind:        # names that spell out the parameters: 48 characters, the first 47 shared
         i.model_name = np.array(['grid_model_with_all_its_parameters_spelled_out_' + c_ for c_ in 'cab'][:n])
